@@ -100,6 +100,18 @@ Definition apply_malt (a : Bans) (m : malt) : Bans :=
   | MHyperClear => upd ex key [] hist cur q act
   end.
 
+(* the length check of the history verifier (fix 10a81c4): an audit path is a Go map - a later write to a key wins ([canon]) -
+   and an entry that is not a 32-byte digest is treated as missing ([wfp]) *)
+Definition wf_answer (a : Bans) : Bans :=
+  match a_history _ _ _ a with
+  | None => a
+  | Some p =>
+      {| a_key := a_key _ _ _ a; a_exists := a_exists _ _ _ a; a_hyper_value := a_hyper_value _ _ _ a;
+         a_hyper_path := a_hyper_path _ _ _ a; a_history := Some (wfp (canon p));
+         a_hist_index := a_hist_index _ _ _ a; a_hist_version := a_hist_version _ _ _ a;
+         a_current := a_current _ _ _ a; a_query := a_query _ _ _ a; a_actual := a_actual _ _ _ a |}
+  end.
+
 (* the wire form always carries a (possibly empty) history path *)
 Definition wire (a : Bans) : Bans := apply_malt a (MExists (a_exists _ _ _ a)).
 
@@ -166,7 +178,7 @@ Definition run_step (r : rstate) (s : step) : rstate * N :=
       match do_query r d q with
       | QOk _ _ _ a =>
           let a' := fold_left apply_malt alts (wire a) in
-          let v := vcode (b_dverify a' dv (fst (snap_lookup r hx)) (snd (snap_lookup r yx))) in
+          let v := vcode (b_dverify (wf_answer a') dv (fst (snap_lookup r hx)) (snd (snap_lookup r yx))) in
           (r, if v =? obs then 0 else 2000 + v)
       | _ => (r, 2900)
       end
@@ -175,7 +187,7 @@ Definition run_step (r : rstate) (s : step) : rstate * N :=
       | None => (r, if cls =? 1 then 0 else 3001)
       | Some None => (r, if cls =? 2 then 0 else 3002)
       | Some (Some p) =>
-          let v := vcode (b_iverify p s e (fst (snap_lookup r s)) (fst (snap_lookup r e))) in
+          let v := vcode (b_iverify (wfp (canon p)) s e (fst (snap_lookup r s)) (fst (snap_lookup r e))) in
           (r, if negb (cls =? 0) then 3003 else if negb (bytes_eqb (opt_fp (Some p)) fp) then 3004
               else if v =? verdict then 0 else 3005)
       end
